@@ -5,7 +5,7 @@ under strace; the recorded file-system syscalls on the cache directory ARE the w
 Every prefix of that programme with every byte-level truncation of every write is materialised
 in a fresh copy of the pre-update directory and the real GetCached() is run on it; the trace
 (programme + result per crash point) is validated by TraceAutoconfCache (ReadOK at every point)."""
-import base64, json, os, re, shutil, socket, subprocess, time
+import base64, json, os, re, shutil, socket, subprocess, threading, time
 
 META = dict(
     spec="AutoconfCache",
@@ -105,26 +105,49 @@ def free_port():
 def run(ctx):
     ctx.level = "model_checking"
     ctx.assumptions += ["crash = the process stops between/inside syscalls; bytes already written stay (no power-loss reordering)",
-                        "strace reports the file-system syscalls of the update completely"]
-    ctx.cov["rule"] = ("every crash point of the strace-recorded write programme (before each syscall, after every byte of each write) "
-                       "after K earlier successful updates; non-trivial = crash inside the write of the new configuration file")
-    # ---- M: design pairs; as-built must fail
-    good = ["MC_direct_newestValid.cfg", "MC2_direct_newestValid_1.cfg"]
-    if not ctx.quick:
-        good += ["MC_atomic_newest.cfg", "MC_atomic_newestValid.cfg", "MC2_direct_newestValid_2.cfg",
-                 "MC2_atomic_newest_1.cfg", "MC2_atomic_newest_2.cfg", "MC2_atomic_newestValid_1.cfg", "MC2_atomic_newestValid_2.cfg"]
-    for cfg in good:
-        ctx.tlc_mc("AutoconfCache", "AutoconfCache.tla", cfg, timeout=300, deadlock=False, workers=2)
-    if not ctx.quick:
-        c2 = ctx.tlc_mc("AutoconfCache", "AutoconfCache.tla", "MC2_direct_newest_2.cfg", timeout=300, deadlock=False,
-                        workers=2, expect_violation=True)
-        if c2["violated"] != "ReadIsValidated":
-            ctx.broken("control MC2_direct_newest_2 should violate ReadIsValidated")
-    ctl = ctx.tlc_mc("AutoconfCache", "AutoconfCache.tla", "MC_direct_newest.cfg", timeout=300, deadlock=False,
-                     workers=2, expect_violation=True)
-    if ctl["violated"] != "ReadIsValidated":
-        ctx.broken("non-vacuity control: direct write + newest-only read must violate ReadIsValidated, got %s" % ctl["violated"])
+                        "strace reports the file-system syscalls of the update completely",
+                        "the reader is configured with the same cache size as the interrupted writer"]
+    ctx.cov["rule"] = ("every crash point of the strace-recorded write programme (before each syscall, after every byte of each write, "
+                       "cleanup unlinks included) for every cache size x K earlier successful updates; non-trivial = crash inside the "
+                       "write of the new configuration file")
+    # the cache-size configuration is part of the state space: 0 = the default (DefaultCacheSize)
+    CSs = [1, 3] if ctx.quick else [1, 2, 3, 0]
+    Ks = [0, 1, 2] if ctx.quick else [0, 1, 2, 3]
 
+    # ---- M: design pairs for every cache size (history model D2: 0..3 earlier updates, crashes, restarts, cleanup);
+    #         the controls (as-built-before-the-fix reader, prune-before-write writer, bounded-window reader) must fail.
+    #         Runs in a background thread while the harness is built and the updates are recorded (it only touches
+    #         cov[states/transitions/phases] and brokens, which the main thread does not use before the join).
+    good = ["MC2_direct_newestValid_1.cfg", "MC2_direct_newestValid_3.cfg"]
+    controls = ["MC2ctl_pruneBefore_1.cfg", "MC2ctl_window_1.cfg"]
+    if not ctx.quick:
+        good += ["MC_direct_newestValid.cfg", "MC_atomic_newest.cfg", "MC_atomic_newestValid.cfg", "MC2_direct_newestValid_2.cfg",
+                 "MC2_atomic_newest_1.cfg", "MC2_atomic_newest_2.cfg", "MC2_atomic_newest_3.cfg",
+                 "MC2_atomic_newestValid_1.cfg", "MC2_atomic_newestValid_2.cfg", "MC2_atomic_newestValid_3.cfg"]
+        controls += ["MC_direct_newest.cfg", "MC2_direct_newest_1.cfg", "MC2_direct_newest_2.cfg", "MC2ctl_pruneBefore_2.cfg", "MC2ctl_pruneBefore_3.cfg",
+                     "MC2ctl_window_2.cfg", "MC2ctl_window_3.cfg"]
+    ctx.specdir("AutoconfCache")
+
+    def phase_m():
+        try:
+            for cfg in good:
+                ctx.tlc_mc("AutoconfCache", "AutoconfCache.tla", cfg, timeout=300, deadlock=False, workers=2)
+            for cfg in controls:
+                c = ctx.tlc_mc("AutoconfCache", "AutoconfCache.tla", cfg, timeout=300, deadlock=False, workers=2,
+                               expect_violation=True)
+                if c["violated"] != "ReadIsValidated":
+                    ctx.broken("non-vacuity control %s must violate ReadIsValidated, got %s (rc=%s)" % (cfg, c["violated"], c["rc"]))
+        except Exception as e:
+            ctx.broken("phase M failed: %s" % e)
+    mth = threading.Thread(target=phase_m)
+    mth.start()
+    try:
+        run_binding(ctx, CSs, Ks, mth)
+    finally:
+        mth.join()
+
+
+def run_binding(ctx, CSs, Ks, mth):
     binp = ctx.go_build("autoconf", ["autoconf/zz_verif_C45_test.go"])
     recs, out, rc = ctx.go_run(binp, "TestVerifC45", pkg="autoconf", mode="payload")
     payload = {r["ver"]: base64.b64decode(r["data"]) for r in recs}
@@ -132,160 +155,165 @@ def run(ctx):
         ctx.broken("payload mode failed: " + out[-800:]); return
     url = "http://127.0.0.1:%d/autoconf.json" % free_port()
     base = os.path.join(ctx.work, "c45"); os.makedirs(base)
-    Ks = [0, 1] if ctx.quick else [0, 1, 2, 3]
 
-    def update(root, ver, strace_out=None):
-        env = {"C45_ROOT": root, "C45_URL": url, "C45_VER": ver}
-        if strace_out is None:
-            r, o, c = ctx.go_run(binp, "TestVerifC45", pkg="autoconf", mode="update", env=env, timeout=120)
-        else:
-            e = dict(os.environ); e.update({k: str(v) for k, v in env.items()})
-            outp = os.path.join(ctx.work, "upd_out.ndjson")
-            if os.path.exists(outp):
-                os.remove(outp)
-            e.update(VERIF_MODE="update", VERIF_OUT=outp)
-            cmd = ["strace", "-f", "-qq", "-xx", "-s", "4194304", "-e", "trace=" + STRACE_SYSCALLS, "-o", strace_out,
-                   binp, "-test.run", "^TestVerifC45$", "-test.count=1"]
-            p = subprocess.run(cmd, env=e, cwd=ctx.work, stdout=subprocess.PIPE, stderr=subprocess.STDOUT, text=True, timeout=180)
-            c, o = p.returncode, p.stdout
-            r = [json.loads(x) for x in open(outp)] if os.path.exists(outp) else []
+    def update(root, ver, cs, strace_out=None):
+        """one real update (fetch + save + cleanup) of the cache under `root` with cache size cs; optionally under strace"""
+        e = dict(os.environ)
+        outp = os.path.join(ctx.work, "upd_out.ndjson")
+        if os.path.exists(outp):
+            os.remove(outp)
+        e.update(C45_ROOT=root, C45_URL=url, C45_VER=str(ver), C45_CACHESIZE=str(cs), VERIF_MODE="update", VERIF_OUT=outp,
+                 VERIF_SEED=str(ctx.seed), VERIF_TIER=ctx.tier)
+        cmd = [binp, "-test.run", "^TestVerifC45$", "-test.count=1"]
+        if strace_out is not None:
+            cmd = ["strace", "-f", "-qq", "-xx", "-s", "4194304", "-e", "trace=" + STRACE_SYSCALLS, "-o", strace_out] + cmd
+        p = subprocess.run(cmd, env=e, cwd=ctx.work, stdout=subprocess.PIPE, stderr=subprocess.STDOUT, text=True, timeout=180)
+        c, o = p.returncode, p.stdout
+        r = [json.loads(x) for x in open(outp)] if os.path.exists(outp) else []
         ok = [x for x in r if x.get("ev") == "updated"]
         if c != 0 or not ok or ok[0]["err"] or ok[0]["got"] != ver:
-            raise RuntimeError("update to version %s failed (rc=%s): %s %s" % (ver, c, ok, o[-600:]))
+            raise RuntimeError("update to version %s (cache size %s) failed (rc=%s): %s %s" % (ver, cs, c, ok, o[-600:]))
+        if cs >= 1 and ok[0].get("cs") != cs:
+            raise RuntimeError("cache size %s not configured: %s" % (cs, ok))
         return ok[0]["cacheDir"]
 
-    # ---- base directories after K successful updates (file names carry the unix second: wait between updates)
-    bases, root0 = {}, os.path.join(base, "live")
-    os.makedirs(root0)
-    bases[0] = os.path.join(base, "base0"); os.makedirs(bases[0])
-    cachedir_rel = None
-    try:
-        for k in range(1, max(Ks) + 1):
-            cd = update(root0, k)
-            cachedir_rel = os.path.relpath(cd, root0)
-            bases[k] = os.path.join(base, "base%d" % k)
-            shutil.copytree(root0, bases[k])
-            time.sleep(1.1)
-    except Exception as e:
-        ctx.broken("base update failed: %s" % e); return
+    def classify(data):
+        for v, p in payload.items():
+            if data and p.startswith(data):
+                return v
+        return 0
+    is_full = lambda d: any(d == p for p in payload.values())
 
-    events, reads, total_nontrivial = [], [], 0
-    for K in Ks:
-        vnew = K + 1
-        root = os.path.join(base, "run%d" % K)
-        shutil.copytree(bases[K], root)
-        st = os.path.join(ctx.work, "strace_%d.txt" % K)
-        try:
-            cd = update(root, vnew, strace_out=st)
-        except Exception as e:
-            ctx.broken("straced update failed: %s" % e); return
-        cachedir_rel = os.path.relpath(cd, root)
-        try:
-            ops = parse_strace(st, cd)
-        except ValueError as e:
-            ctx.broken("cannot interpret the write programme: %s" % e); return
-        if not any(o[0] == "write" for o in ops):
-            ctx.broken("strace recorded no write into the cache directory (K=%d)" % K); return
-        # initial image from the base directory
-        bdir = os.path.join(bases[K], cachedir_rel)
-        img = {}
-        if os.path.isdir(bdir):
-            for f in os.listdir(bdir):
-                img[f] = open(os.path.join(bdir, f), "rb").read()
+    events, reads = [], []
+    for cs in CSs:
+        # live lineage: K successful updates with this cache size (file names carry the unix second: the straced update of
+        # the copy and the next live update both happen at least 1.1 s after the previous live update)
+        live = os.path.join(base, "cs%d_live" % cs); os.makedirs(live)
+        for K in range(0, max(Ks) + 1):
+            if K >= 1:
+                try:
+                    update(live, K, cs)
+                except Exception as e:
+                    ctx.broken("base update failed: %s" % e); return
+                time.sleep(1.1)
+            if K not in Ks:
+                continue
+            vnew = K + 1
+            bdir0 = os.path.join(base, "cs%d_base%d" % (cs, K))
+            shutil.copytree(live, bdir0)
+            root = os.path.join(base, "cs%d_run%d" % (cs, K))
+            shutil.copytree(bdir0, root)
+            st = os.path.join(ctx.work, "strace_%d_%d.txt" % (cs, K))
+            try:
+                cd = update(root, vnew, cs, strace_out=st)
+            except Exception as e:
+                ctx.broken("straced update failed: %s" % e); return
+            cachedir_rel = os.path.relpath(cd, root)
+            try:
+                ops = parse_strace(st, cd)
+            except ValueError as e:
+                ctx.broken("cannot interpret the write programme: %s" % e); return
+            if not any(o[0] == "write" for o in ops):
+                ctx.broken("strace recorded no write into the cache directory (cs=%d K=%d)" % (cs, K)); return
+            # initial image from the base directory
+            bdir = os.path.join(bdir0, cachedir_rel)
+            img = {}
+            if os.path.isdir(bdir):
+                for f in os.listdir(bdir):
+                    img[f] = open(os.path.join(bdir, f), "rb").read()
+            # final image -> final names
+            fin = dict(img)
+            for o in ops:
+                if o[0] == "create":
+                    if o[2] or o[1] not in fin:
+                        fin[o[1]] = b""
+                elif o[0] == "write":
+                    fin[o[1]] = fin.get(o[1], b"") + o[2]
+                elif o[0] == "rename":
+                    fin[o[2]] = fin.pop(o[1])
+                elif o[0] == "unlink":
+                    fin.pop(o[1], None)
+            # sanity: the simulated final image must equal the real directory after the update
+            real = {f: open(os.path.join(cd, f), "rb").read() for f in os.listdir(cd)}
+            if real != fin:
+                diff = [(n, len(real.get(n, b"")) if n in real else None, len(fin.get(n, b"")) if n in fin else None)
+                        for n in sorted(set(real) | set(fin)) if real.get(n) != fin.get(n)]
+                ctx.save_text("strace_mismatch_cs%d_K%d.txt" % (cs, K), open(st, errors="replace").read()[-200000:])
+                ctx.broken("replaying the recorded programme does not reproduce the real directory (cs=%d K=%d): "
+                           "(name, real length, replayed length) = %s; programme %s" %
+                           (cs, K, diff, [(o[0], o[1], len(o[2]) if o[0] == "write" else None) for o in ops])); return
+            finals = sorted({n for n, d in img.items() if is_full(d)} | {n for n, d in fin.items() if is_full(d)})
+            names = sorted(set(img) | set(fin) | {o[1] for o in ops} | {o[2] for o in ops if o[0] == "rename"})
+            events.append(dict(ev="Reset", K=K, cs=cs, vnew=vnew, full=[len(payload[v]) for v in sorted(payload)], names=names,
+                               finals=finals, files=[[n, classify(d), len(d)] for n, d in sorted(img.items())]))
+            cur = dict(img)
+            idx = [0]
 
-        def classify(data):
-            for v, p in payload.items():
-                if data and p.startswith(data):
-                    return v
-            return 0
-        # final image -> final names
-        fin = dict(img)
-        for o in ops:
-            if o[0] == "create":
-                if o[2] or o[1] not in fin:
-                    fin[o[1]] = b""
-            elif o[0] == "write":
-                fin[o[1]] = fin.get(o[1], b"") + o[2]
-            elif o[0] == "rename":
-                fin[o[2]] = fin.pop(o[1])
-            elif o[0] == "unlink":
-                fin.pop(o[1], None)
-        # sanity: the simulated final image must equal the real directory after the update
-        real = {f: open(os.path.join(cd, f), "rb").read() for f in os.listdir(cd)}
-        if real != fin:
-            ctx.broken("replaying the recorded programme does not reproduce the real directory (K=%d): %s vs %s" %
-                       (K, sorted(real), sorted(fin))); return
-        is_full = lambda d: any(d == p for p in payload.values())
-        finals = sorted({n for n, d in img.items() if is_full(d)} | {n for n, d in fin.items() if is_full(d)})
-        names = sorted(set(img) | set(fin) | {o[1] for o in ops} | {o[2] for o in ops if o[0] == "rename"})
-        events.append(dict(ev="Reset", K=K, vnew=vnew, full=[len(payload[v]) for v in sorted(payload)], names=names,
-                           finals=finals, files=[[n, classify(d), len(d)] for n, d in sorted(img.items())]))
-        cur = dict(img)
-        idx = [0]
+            def crash(pname="", pver=0, plen=0, image=None, nontrivial=False):
+                d = os.path.join(base, "crash", "cs%d_K%d_%05d" % (cs, K, idx[0])); idx[0] += 1
+                dd = os.path.join(d, cachedir_rel); os.makedirs(dd)
+                for n, data in (image if image is not None else cur).items():
+                    open(os.path.join(dd, n), "wb").write(data)
+                events.append(dict(ev="CrashRead", pname=pname, pver=pver, plen=plen, result=None, K=K, cs=cs))
+                reads.append((len(events) - 1, d, nontrivial, cs))
+            for o in ops:
+                if o[0] == "create":
+                    crash()
+                    if o[2] or o[1] not in cur:
+                        cur[o[1]] = b""
+                    events.append(dict(ev="Create", name=o[1], trunc=bool(o[2])))
+                elif o[0] == "write":
+                    name, data = o[1], o[2]
+                    before = cur.get(name, b"")
+                    v = classify(before + data)
+                    crash()
+                    for k in range(1, len(data)):
+                        im = dict(cur); im[name] = before + data[:k]
+                        crash(pname=name, pver=v, plen=len(before) + k, image=im, nontrivial=(v == vnew))
+                    cur[name] = before + data
+                    events.append(dict(ev="Write", name=name, ver=v, off=len(before), n=len(data)))
+                elif o[0] == "rename":
+                    crash()
+                    cur[o[2]] = cur.pop(o[1])
+                    events.append(dict(ev="Rename", a=o[1], b=o[2]))
+                elif o[0] == "unlink":
+                    crash()
+                    cur.pop(o[1], None)
+                    events.append(dict(ev="Unlink", name=o[1]))
+            events.append(dict(ev="Done"))
+            crash()
+            ctx.log("cs=%d K=%d: programme of %d syscalls (%d unlinks), %d crash points" %
+                    (cs, K, len(ops), sum(1 for o in ops if o[0] == "unlink"), idx[0]))
+            if K == max(Ks) or cs == CSs[0] and K == 1:
+                ctx.sample(dict(cs=cs, K=K, programme=[[o[0], o[1], (len(o[2]) if o[0] == "write" else o[2] if len(o) > 2 else None)] for o in ops]))
 
-        def crash(pname="", pver=0, plen=0, image=None, nontrivial=False):
-            d = os.path.join(base, "crash", "K%d_%05d" % (K, idx[0])); idx[0] += 1
-            dd = os.path.join(d, cachedir_rel); os.makedirs(dd)
-            for n, data in (image if image is not None else cur).items():
-                open(os.path.join(dd, n), "wb").write(data)
-            events.append(dict(ev="CrashRead", pname=pname, pver=pver, plen=plen, result=None, K=K))
-            reads.append((len(events) - 1, d, nontrivial))
-        for o in ops:
-            if o[0] == "create":
-                crash()
-                if o[2] or o[1] not in cur:
-                    cur[o[1]] = b""
-                events.append(dict(ev="Create", name=o[1], trunc=bool(o[2])))
-            elif o[0] == "write":
-                name, data = o[1], o[2]
-                before = cur.get(name, b"")
-                v = classify(before + data)
-                crash()
-                step = 1
-                if ctx.quick and v == 0:
-                    step = 1
-                for k in range(1, len(data), step):
-                    im = dict(cur); im[name] = before + data[:k]
-                    crash(pname=name, pver=v, plen=len(before) + k, image=im, nontrivial=(v == vnew))
-                cur[name] = before + data
-                events.append(dict(ev="Write", name=name, ver=v, off=len(before), n=len(data)))
-            elif o[0] == "rename":
-                crash()
-                cur[o[2]] = cur.pop(o[1])
-                events.append(dict(ev="Rename", a=o[1], b=o[2]))
-            elif o[0] == "unlink":
-                crash()
-                cur.pop(o[1], None)
-                events.append(dict(ev="Unlink", name=o[1]))
-        events.append(dict(ev="Done"))
-        crash()
-        ctx.log("K=%d: programme of %d syscalls, %d crash points" % (K, len(ops), idx[0]))
-        ctx.sample(dict(K=K, programme=[[o[0], o[1], (len(o[2]) if o[0] == "write" else o[2] if len(o) > 2 else None)] for o in ops]))
-
-    # ---- run the real GetCached() on every crash state
-    inp = ctx.write_ndjson("crashdirs.ndjson", [dict(dir=d) for _, d, _ in reads])
+    # ---- run the real GetCached() on every crash state (reader configured with the writer's cache size)
+    inp = ctx.write_ndjson("crashdirs.ndjson", [dict(dir=d, cs=c) for _, d, _, c in reads])
     recs, out, rc = ctx.go_run(binp, "TestVerifC45", pkg="autoconf", mode="read", infile=inp, env={"C45_URL": url}, timeout=900)
     res = {r["i"]: r for r in recs if "i" in r}
     if rc != 0 or len(res) != len(reads):
         ctx.broken("read driver died: %s" % out[-1000:]); return
-    for j, (ei, d, nt) in enumerate(reads):
+    for j, (ei, d, nt, c) in enumerate(reads):
         events[ei]["result"] = res[j]["result"]
         events[ei]["detail"] = res[j]["detail"]
         if nt:
-            ctx.nontrivial("K%s-%d" % (events[ei]["K"], events[ei]["plen"]))
+            ctx.nontrivial("cs%s-K%s-%d" % (c, events[ei]["K"], events[ei]["plen"]))
     ctx.cov["evaluations"] += len(reads)
     ctx.cov["exhaustive"] = True
     shutil.rmtree(os.path.join(base, "crash"), ignore_errors=True)
 
     def corrupt(rs):
-        idx = [i for i, r in enumerate(rs) if r["ev"] == "CrashRead" and r["result"] >= 1 and r["pname"]]
-        if not idx:
-            idx = [i for i, r in enumerate(rs) if r["ev"] == "CrashRead" and r["result"] >= 1]
-        if not idx:
-            return None, None
-        i = idx[len(idx) // 2]
-        bad = [dict(r) for r in rs]
-        bad[i]["result"] = 0        # pretend the reader fell back although a valid version exists
-        return bad, i
-    ok = ctx.validate_trace("AutoconfCache", "TraceAutoconfCache.tla", "TraceAutoconfCache.cfg", events,
-                            count_runs=lambda rs: sum(1 for r in rs if r["ev"] == "CrashRead"), negative=corrupt, timeout=900)
+        # binding control on the first (cs, K >= 1) run only (one TLC start, short trace): pretend the reader fell back
+        # although a valid version exists
+        resets = [i for i, r in enumerate(rs) if r["ev"] == "Reset"]
+        for a, b in zip(resets, resets[1:] + [len(rs)]):
+            idx = [i for i in range(a, b) if rs[i]["ev"] == "CrashRead" and rs[i]["result"] >= 1 and rs[i]["pname"]]
+            if idx:
+                i = idx[len(idx) // 2]
+                bad = [dict(r) for r in rs[a:b]]
+                bad[i - a]["result"] = 0
+                return bad, i - a
+        return None, None
+    mth.join()        # phase M done: the trace validation below uses the shared counters
+    ctx.validate_trace("AutoconfCache", "TraceAutoconfCache.tla", "TraceAutoconfCache.cfg", events,
+                       count_runs=lambda rs: sum(1 for r in rs if r["ev"] == "CrashRead"), negative=corrupt, timeout=900)
